@@ -23,6 +23,9 @@ CHECKS = {
     "C12": ("decision analysis by abstract interpretation with an uninterpreted scale conversion; E5 scale-domain rule",
             "Epoch eq/partial_cmp/cmp/min/max: both operands of the Duration comparison are in the same scale (one converted to the other's), and the result is exactly what the signed counts dictate, so ==, <, > are mutually exclusive; PartialOrd and Ord agree.",
             "3.C12"),
+    "C13": ("panic-site reachability by abstract interpretation over MIR: string models with panic semantics, loops abstracted by havoc + Houdini-inferred inductive invariants, assume/guarantee contracts; SCC termination rule",
+            "Every explicit panic, MIR Assert (bounds, overflow, division), unwrap/expect, str/slice indexing and out-of-range shift reachable from the ten string-parsing entry points is unreachable on every abstract path for an arbitrary UTF-8 input (only its length, known char boundaries and first char are tracked); every loop in the cone is driven by a finite iterator; out-of-range fields are rejected through Token::value_ok's table and dates are built only through maybe_from_gregorian.",
+            "3.C13"),
     "C15": ("write-set (frame) analysis + decision tables by abstract interpretation with exact Duration algebra",
             "next() writes only cur; item = start + cur_before*step (product from the counter) in start's scale; cur += 1 on Some, unchanged on None; None iff cur*step >= span (exclusive) / > span (inclusive); constructors set duration = end - start, cur = 0, incl.",
             "3.C15"),
